@@ -108,8 +108,8 @@ type ProfileDoc struct {
 	Info      []string
 	// level keys are emitted only when the corresponding Has* flag is set or the list is non-empty
 	HasViolation, HasWarning, HasInfo bool
-	Validations                        []Validation
-	RegoExtensions                     string
+	Validations                       []Validation
+	RegoExtensions                    string
 }
 
 func (p *ProfileDoc) YAML() *YMap {
@@ -179,13 +179,19 @@ func (p *ProfileDoc) ValidationNames() map[string]bool {
 
 // helpers to build constraints
 
-func CScalar(key string, v YScalar) Constraint       { return Constraint{Key: key, Value: v} }
-func CList(key string, items ...string) Constraint   { return Constraint{Key: key, Value: StrSeq(items...)} }
-func CNested(inner Expr) Constraint                  { return Constraint{Key: "nested", Inner: inner} }
-func CAtLeast(n int, inner Expr) Constraint          { return Constraint{Key: "atLeast", Count: n, Inner: inner} }
-func CAtMost(n int, inner Expr) Constraint           { return Constraint{Key: "atMost", Count: n, Inner: inner} }
-func PC1(path string, cs ...Constraint) PC           { return PC{Entries: []PCEntry{{Path: path, Constraints: cs}}} }
-func CompactIRI(prefix, local string) string         { return prefix + "." + local }
+func CScalar(key string, v YScalar) Constraint { return Constraint{Key: key, Value: v} }
+func CList(key string, items ...string) Constraint {
+	return Constraint{Key: key, Value: StrSeq(items...)}
+}
+func CNested(inner Expr) Constraint { return Constraint{Key: "nested", Inner: inner} }
+func CAtLeast(n int, inner Expr) Constraint {
+	return Constraint{Key: "atLeast", Count: n, Inner: inner}
+}
+func CAtMost(n int, inner Expr) Constraint { return Constraint{Key: "atMost", Count: n, Inner: inner} }
+func PC1(path string, cs ...Constraint) PC {
+	return PC{Entries: []PCEntry{{Path: path, Constraints: cs}}}
+}
+func CompactIRI(prefix, local string) string { return prefix + "." + local }
 func ExpandCompact(pm map[string]string, c string) string {
 	i := strings.Index(c, ".")
 	if i < 0 {
